@@ -371,10 +371,22 @@ def observe_text():
         except UnicodeEncodeError:
             se = False
         # validation: templates (escapes, unknown names, conversions, specs, doubled braces) and repr over the battery
+        from flow.record import RecordDescriptor
+        from flow.record.fieldtypes import path as _p
+        T = RecordDescriptor("probe/tpl", [("path", "p"), ("uri", "u"), ("datetime", "ts"), ("string[]", "tags"), ("dictlist", "dl"),
+                                           ("varint", "n"), ("varint", "w"), ("string", "s")])
+        forms = [T(p=_p.from_posix("/var/log/app.log"), u="https://host.example/x", ts=TS, tags=["red", "blue"], dl=[{"k": "v1"}],
+                   n=255, w=7, s="val", _generated=TS),
+                 T(p=_p.from_posix("rel/b.txt"), u="ftp://h/", ts=TS, tags=["only"], dl=[{"k": "v2"}], n=-3, w=4, s='q"x', _generated=TS)]
         script = [x for x in battery() if not isinstance(x, _Twin)]
         if _text_out(battery()) != "".join(repr(x) + end for x in script):
             raise Unsupported("TextWriter: output without a template is not repr(record)%r per record" % end)
-        for tpl in ["{s}", "x\\t{s}\\n{n}|{t}", "{{{s}}} {zz!r} {n!s:>4}", "\\\\n{_source}", "{s:>6}|{t:<5}|{nosuch:^9}", "plain é", "\\r{a}{b}"]:
+        plain = ["{s}", "x\\t{s}\\n{n}|{t}", "{{{s}}} {zz!r} {n!s:>4}", "\\\\n{_source}", "{s:>6}|{t:<5}|{nosuch:^9}", "plain é", "\\r{a}{b}"]
+        # every replacement-field form of str.format: attribute / index access, fields nested in a spec, conversion with
+        # spec, a field used only inside a spec, repeated fields, literal braces, positional fields (an error)
+        other = ["{p.name}|{u.scheme}|{ts.year}", "{tags[0]}|{dl[0][k]}", "{n:>{w}}|{s:{w}}|{n:#x}", "{s!r:>10}|{s!a}", "{s}{s}{{{s}}}{{}}",
+                 "{zz:>{w}}", "{s:>{nosuch}}", "{}", "{0}", "{tags[5]}", "{nosuch.attr}", "{p.parent.name}{p.suffix}", "{n!r:>{w}}"]
+        for tpl, script in [(t, script) for t in plain] + [(t, forms) for t in other]:
             rt = replace_all(table, tpl)
             want = ""
             for x in script:
